@@ -31,6 +31,9 @@ def mutation_sites(f: FunctionInfo) -> List[Tuple[ast.AST, ast.AST, str]]:
                 for tt in (t.elts if isinstance(t, (ast.Tuple, ast.List)) else [t]):
                     if isinstance(tt, ast.Subscript):
                         out.append((n, tt.value, "item store"))
+            if isinstance(n, ast.AugAssign) and isinstance(n.target, (ast.Name, ast.Attribute)) \
+                    and isinstance(n.op, (ast.Add, ast.BitOr, ast.BitAnd, ast.Sub, ast.Mult)):
+                out.append((n, n.target, "in-place operator"))  # list += / set |= / dict |= change the object itself
         elif isinstance(n, ast.Delete):
             for t in n.targets:
                 if isinstance(t, ast.Subscript):
@@ -70,6 +73,8 @@ class ParamEffects:
             for node, obj, how in mutation_sites(f):
                 at = flow.node_of(node)
                 ps = self._param_atoms(flow.aliases(obj, at.id if at else None)) - fresh
+                if how == "in-place operator":
+                    ps = {p for p in ps if _container_annotated(f, p)}  # `n += 1` on a number / string rebinds, nothing is shared
                 self.mutates[f.qualname] |= ps
             for n in own_nodes(f.node):
                 if isinstance(n, ast.Return) and n.value is not None:
@@ -108,6 +113,43 @@ class ParamEffects:
                                 pass
 
 
+CONTAINER_NAMES = {"list", "List", "dict", "Dict", "set", "Set", "MutableMapping", "MutableSequence", "OrderedDict", "defaultdict"}
+IMMUTABLE_NAMES = {"str", "int", "float", "bool", "Path", "tuple", "Tuple", "None", "Optional", "frozenset", "bytes", "Sid"}
+
+
+def _ann_names(ann: Optional[ast.AST]) -> Set[str]:
+    if ann is None:
+        return set()
+    if isinstance(ann, ast.Constant) and isinstance(ann.value, str):
+        try:
+            ann = ast.parse(ann.value, mode="eval").body
+        except SyntaxError:
+            return set()
+    out = set()
+    for x in ast.walk(ann):
+        if isinstance(x, ast.Name):
+            out.add(x.id)
+        elif isinstance(x, ast.Attribute):
+            out.add(x.attr)
+        elif isinstance(x, ast.Constant) and x.value is None:
+            out.add("None")
+    return out
+
+
+def _container_annotated(f: FunctionInfo, pname: str) -> bool:
+    a = f.node.args
+    for x in a.posonlyargs + a.args + a.kwonlyargs:
+        if x.arg == pname:
+            return bool(_ann_names(x.annotation) & CONTAINER_NAMES)
+    return False
+
+
+def _immutable_result(f: FunctionInfo) -> bool:
+    """the function is annotated to return only immutable values (strings, numbers, paths, tuples)"""
+    names = _ann_names(f.node.returns)
+    return bool(names) and names <= IMMUTABLE_NAMES and not ({"tuple", "Tuple"} & names)
+
+
 def bind_args(callee: FunctionInfo, call: ast.Call) -> List[Tuple[str, ast.AST]]:
     """(parameter name, argument expression) pairs; self is skipped for bound calls"""
     a = callee.node.args
@@ -144,8 +186,9 @@ def _param_effects(ctx: Ctx) -> ParamEffects:
 
 
 # ------------------------------------------------------------------------------------------------
-def _memo_call_atoms(ctx: Ctx, f: FunctionInfo, atoms: Iterable[Atom], memo_q: Set[str]) -> List[Tuple[Atom, str]]:
-    """atoms that are (elements of) results of calls to memoised functions -> (atom, memoised qualname)"""
+def _memo_call_atoms(ctx: Ctx, f: FunctionInfo, atoms: Iterable[Atom], memo_q, derived=None) -> List[Tuple[Atom, str]]:
+    """atoms that are (elements of) results of calls to memoised functions, or to functions that hand such a result
+    on unchanged (``derived``: qualname -> memoised origin) -> (atom, memoised qualname)"""
     out = []
     site_by_id = {id(cs.node): cs for cs in ctx.cg.sites.get(f.qualname, [])}
     for a in atoms:
@@ -158,7 +201,40 @@ def _memo_call_atoms(ctx: Ctx, f: FunctionInfo, atoms: Iterable[Atom], memo_q: S
                 if t.qualname in memo_q:
                     out.append((a, t.qualname))
                     break
+                if derived and t.qualname in derived:
+                    out.append((a, derived[t.qualname]))
+                    break
     return out
+
+
+def cache_returning(ctx: Ctx, memo_q: Set[str]) -> Dict[str, str]:
+    """functions that return (an element of) a memoised function's result without copying it: qualname -> origin"""
+    got = getattr(ctx, "_cache_returning", None)
+    if got is not None:
+        return got
+    derived: Dict[str, str] = {}
+    fns = [f for f in ctx.p.iter_functions(kinds=("library", "config")) if f.qualname not in memo_q
+           and f.module.name != "spil.util.caching"]
+    changed = True
+    rounds = 0
+    while changed and rounds < 6:
+        changed = False
+        rounds += 1
+        for f in fns:
+            if f.qualname in derived:
+                continue
+            flow = flow_of(f.node)
+            for n in own_nodes(f.node):
+                if not (isinstance(n, ast.Return) and n.value is not None):
+                    continue
+                at = flow.node_of(n)
+                hits = _memo_call_atoms(ctx, f, flow.aliases(n.value, at.id if at else None), memo_q, derived)
+                if hits:
+                    derived[f.qualname] = hits[0][1]
+                    changed = True
+                    break
+    ctx._cache_returning = derived
+    return derived
 
 
 # accepted mutations of cache-owned values: function -> (reason, side condition, attribute the stored value must be
@@ -183,6 +259,11 @@ def rule_mut(ctx: Ctx) -> RuleResult:
     memo_q = {f.qualname for f, d in memo_fns}
     res.floor(len(memo_q), 12, "memoised functions whose results are cache-owned (9 spil + 3 resolva)")
     pe = _param_effects(ctx)
+    immutable = {f.qualname for f, d in memo_fns if _immutable_result(f)}
+    derived = cache_returning(ctx, memo_q)
+    if derived:
+        res.note(f"{len(derived)} functions hand a memoised result on unchanged: " + ", ".join(sorted(x.split('.')[-1] for x in derived)),
+                 "their callers are examined like callers of the memoised function itself")
     n_sites = 0
     n_calls = 0
     for f in ctx.p.iter_functions(kinds=("library", "config")):
@@ -193,7 +274,9 @@ def rule_mut(ctx: Ctx) -> RuleResult:
         for node, obj, how in mutation_sites(f):
             at = flow.node_of(node)
             atoms = flow.aliases(obj, at.id if at else None)
-            hits = _memo_call_atoms(ctx, f, atoms, memo_q)
+            hits = _memo_call_atoms(ctx, f, atoms, memo_q, derived)
+            if how == "in-place operator":
+                hits = [h for h in hits if h[1] not in immutable]
             if not hits:
                 continue
             n_sites += 1
@@ -233,7 +316,7 @@ def rule_mut(ctx: Ctx) -> RuleResult:
                         continue
                     at = flow.node_of(cs.node)
                     atoms = flow.aliases(arg, at.id if at else None)
-                    hits = _memo_call_atoms(ctx, f, atoms, memo_q)
+                    hits = _memo_call_atoms(ctx, f, atoms, memo_q, derived)
                     n_calls += 1
                     if hits and f.qualname in MUT_EXEMPT and t.module is f.module and t.name.startswith("_") \
                             and _helper_only_maps(t, pname, MUT_EXEMPT[f.qualname][2]):
@@ -370,8 +453,42 @@ def rule_esc(ctx: Ctx) -> RuleResult:
                                           m.relpath, cs.lineno)
                         else:
                             res.ok(f"{m.qualname} -> {t.short}({pname}=self._fields)", "callee neither mutates nor retains the dictionary")
+    # (c) a memoised accessor hands the *same* object to every caller: it must not be a mutable container
+    memo_q = {f.qualname: d for f, d in memo.memoised_functions(ctx)}
+    for cq in SID_CLASSES:
+        c = ctx.p.cls(cq)
+        for m in c.methods.values():
+            if m.qualname not in memo_q:
+                continue
+            n += 1
+            why = _mutable_result(m)
+            if why:
+                res.violation([m.qualname, "memoised accessor returns a mutable container"],
+                              f"{m.short} is memoised and returns {why}: the one stored object is handed to every caller and to "
+                              f"every equal Sid, so a caller changing it changes what the Sid reports", m.relpath, m.node.lineno)
+            else:
+                res.ok(f"{m.qualname} (memoised)", "returns an immutable value (path / string / None)")
     res.floor(n, 4, "uses of the field dictionary examined")
     return res
+
+
+def _mutable_result(m: FunctionInfo) -> str:
+    names = _ann_names(m.node.returns)
+    if names & CONTAINER_NAMES:
+        return f"a value annotated `{norm(m.node.returns)}`"
+    for x in own_nodes(m.node):
+        if isinstance(x, ast.Return) and x.value is not None:
+            v = x.value
+            if isinstance(v, (ast.Dict, ast.List, ast.Set, ast.DictComp, ast.ListComp, ast.SetComp)):
+                return f"a new {type(v).__name__} (`{norm(v)[:40]}`)"
+            if isinstance(v, ast.Call):
+                if isinstance(v.func, ast.Name) and v.func.id in ("dict", "list", "set", "sorted", "OrderedDict"):
+                    return f"`{norm(v)[:40]}`"
+                if isinstance(v.func, ast.Attribute) and v.func.attr == "copy":
+                    return f"`{norm(v)[:40]}`"
+            if isinstance(v, ast.Attribute) and v.attr in PRIVATE_FIELDS[2:]:
+                return f"`{norm(v)}`"
+    return ""
 
 
 # ------------------------------------------------------------------------------------------------
@@ -530,6 +647,14 @@ def rule_triple(ctx: Ctx) -> RuleResult:
     res = RuleResult("R-TRIPLE")
     sites = _init_sites(ctx)
     res.floor(len(sites), 3, "Sid initialisation sites in the factory")
+    # each factory function builds its Sid itself from its own resolver call (it does not hand the data to another
+    # factory, which would re-detect the type)
+    for q in ("spil.sid.core.sid_factory.sid_to_sid", "spil.sid.core.sid_factory.dict_to_sid", "spil.sid.core.sid_factory.path_to_sid"):
+        g = ctx.p.function(q)
+        if not any(f_ is g for f_, _, args_ in sites if args_):
+            res.violation([q, "no initialisation site"], f"{g.short} no longer initialises the Sid from the (string, type, fields) its own resolver "
+                                                         f"call produced: the type found by the resolver is lost and detected again from the fields",
+                          g.relpath, g.node.lineno)
     S2D = "spil.sid.core.sid_resolver.sid_to_dict"
     D2S = "spil.sid.core.sid_resolver.dict_to_sid"
     AQ = "spil.sid.core.query_helper.apply_query"
